@@ -1,5 +1,7 @@
 import SlipVerif.Model.JsonLisp
 import SlipVerif.Model.JsonConfig
+import SlipVerif.Model.JsonSen
+import SlipVerif.Model.JsonWrite
 import SlipVerif.Driver.Util
 --! namespace: json
 /- line protocol for C18 (arguments are space separated tokens):
@@ -14,13 +16,17 @@ import SlipVerif.Driver.Util
                (evaluation stops after the first err)
    json write c|i<n> <J>     reply: ok s<hex text>
    json parse s<hex text>    reply: ok <J> | err <class>
+   json writesen c|i<n> <J>  reply: ok s<hex text>                      (the model's SEN writer)
+   json parsesen s<hex text> reply: ok <J> | err <class>                (the model's SEN reader)
+   json wopts <pretty T|F> <margin> (<kw> <val>)*   val = n | t | x<int> | s<hex> | o
+                             reply: ok <mode> <pretty|sen|json> sen=<T|F> depth=<int> indent=<int> width=<int> sort=<T|F> color=<T|F> | err keyword
    json parsemany s<hex>     reply: ok <J> ( | <J> )* | err <class>      (several documents in one text)
    json scan T|F <J>         reply: ok <path> <J> ( | <path> <J> )*      (T = leaves only)
    json config (f<hex>|w<hex>)* ; <J>   reply: ok f<hex> w<hex> | <J>   (variables after the history of
                              settings; the document as a parse entry point holds it then: m<hex> = time token)
    json native <J>           reply: ok <faithful T/F> <L> | ok <J> / err <class>
    json oflisp <L>           reply: ok <J> | err <class>
-   json simple <G>           reply: ok <gfaithful T/F> <L> | <G>
+   json simple <G>           reply: ok <gfaithful T/F> <L> | <G> | <gbag T/F> ok <J> / err <class>   (SimpleObject, Simplify of it, ObjectToBag of it)
 -/
 namespace SlipVerif.Driver.Json
 open SlipVerif.Json SlipVerif.Driver
@@ -331,6 +337,57 @@ def handle (entry : String) (args : List String) : String :=
         | none => "bad-request hex"
       else "bad-request text"
     | _ => "bad-request parse"
+  | "writesen" =>
+    match args with
+    | lay :: rest =>
+      match decJ n rest with
+      | some (doc, []) =>
+        let layout := if lay = "c" then some Layout.compact
+                      else if tag lay = 'i' then (body lay).toNat?.map Layout.indent else none
+        match layout with
+        | some l => "ok s" ++ hexString (writeSen l doc)
+        | none => "bad-request layout"
+      | _ => "bad-request doc"
+    | _ => "bad-request writesen"
+  | "parsesen" =>
+    match args with
+    | [w] =>
+      if tag w = 's' then
+        match unhexString? (body w) with
+        | some text =>
+          match parseSen text with
+          | .ok j => "ok " ++ join (encJ j)
+          | .error e => showPErr e
+        | none => "bad-request hex"
+      else "bad-request text"
+    | _ => "bad-request parsesen"
+  | "wopts" =>
+    match args with
+    | p :: m :: rest =>
+      match m.toInt? with
+      | none => "bad-request margin"
+      | some margin =>
+        let rec kws : List String → Option (List (String × KwVal))
+          | [] => some []
+          | [_] => none
+          | k :: v :: more => do
+            let kv ← (if v = "n" then some KwVal.nil else if v = "t" then some KwVal.t else if v = "o" then some KwVal.other
+                      else if tag v = 'x' then (body v).toInt?.map KwVal.fix
+                      else if tag v = 's' then (unhexString? (body v)).map KwVal.str else none)
+            let r ← kws more
+            some ((k, kv) :: r)
+        match kws rest with
+        | none => "bad-request keywords"
+        | some l =>
+          match applyKws l (WOpts.init (p = "T") margin) with
+          | none => "err keyword"
+          | some w =>
+            let wr := match writerOf w with
+              | .pretty => "pretty"
+              | .sen => "sen"
+              | .json => "json"
+            s!"ok {modeName w} {wr} sen={showBool w.sen} depth={w.maxDepth} indent={w.indent} width={w.width} sort={showBool w.sort} color={showBool w.color}"
+    | _ => "bad-request wopts"
   | "parsemany" =>
     match args with
     | [w] =>
@@ -391,7 +448,11 @@ def handle (entry : String) (args : List String) : String :=
     match decG n args with
     | some (g, []) =>
       let l := simpleObject g
-      "ok " ++ showBool (GFaithful g) ++ " " ++ join (encL l) ++ " | " ++ join (encG (simplify l))
+      let bagv := match ofLisp l with
+        | .ok j => "ok " ++ join (encJ j)
+        | .error e => showLErr e
+      "ok " ++ showBool (GFaithful g) ++ " " ++ join (encL l) ++ " | " ++ join (encG (simplify l)) ++ " | " ++
+        showBool (GBag g) ++ " " ++ bagv
     | _ => "bad-request go-value"
   | _ => "bad-request entry"
 
